@@ -88,7 +88,9 @@ def fit_event(est, cfg, tr, rng):
   with warnings.catch_warnings(record=True) as w:
     warnings.simplefilter('always')
     try:
-      ret = est.fit(*tr['fit_args'])
+      import contextlib, io
+      with contextlib.redirect_stdout(io.StringIO()):
+        ret = est.fit(*tr['fit_args'])
     except Exception as e:
       ev['exc'] = type(e).__name__
       ev['exc_msg'] = str(e)[:200]
@@ -125,6 +127,8 @@ def gen_trace(recipe):
     tr = gen.training(rng, name, X=X, y=y)
     if est is None:
       est, opts = build(cfg, rng, tr, default_n_constraints=bool(recipe.get('unbalanced')))
+      if recipe.get('verbose') and 'verbose' in est.get_params():
+        est.set_params(verbose=True)        # (a documented option value: progress messages must not change what fit does)
     else:
       # refit of the SAME object on data of another dimensionality (same parameters)
       if name == 'RCA_Supervised':
@@ -194,7 +198,8 @@ def run(ctx):
         if others:
           d2 = others[int(rng.integers(len(others)))]
           seq.append(index[key(c)][d2])
-      rs.append(dict(cfgs=seq, seed=int(rng.integers(1 << 30)), relabel=bool(rng.integers(2)), unbalanced=bool(rng.integers(3) == 0)))
+      rs.append(dict(cfgs=seq, seed=int(rng.integers(1 << 30)), relabel=bool(rng.integers(2)), unbalanced=bool(rng.integers(3) == 0),
+                     verbose=bool(rng.integers(4) == 0)))
   ctx.rule = ('every configuration enumerated by TLC from Options.tla (17 estimators x init/prior/basis x '
               'embedding_type x k x n_components x n_features %d..%d x n_classes 2..3) is fitted on a generated '
               'well-formed training set, %d time(s), plus a refit of the same object on another dimensionality; '
